@@ -266,3 +266,78 @@ Proof.
 Qed.
 
 End EriBlock.
+
+(* ==================================================================================================== *)
+(* Examples over Qc (sqrt = 1, exp = identity, a stand-in Boys function): the hypotheses are satisfiable, and the block
+   law is re-evaluated through the list-level model for a (p s | p s) block with a contracted two-segment p shell. *)
+From Coq Require Import ZArith QArith Qcanon.
+Definition ebKQ : Fops Qc := QcK true (Q2Qc 3) (fun _ => Q2Qc 1) (fun x => x) (fun x => x) exBoys.
+Section Examples.
+Let KQ : Fops Qc := ebKQ.
+Let KQf : is_field KQ := QcK_field _ _ _ _ _ _.
+Let q (n : Z) (d : positive) : Qc := qc_of n d.
+Definition ebP1 : shell Qc :=
+  mkShell Qc 1 (q 1 2) (q (-1) 1) (q 2 1) [q 3 2; q 1 4] [[q 1 1; q 2 1]; [q (-1) 3; q 1 2]] false [] [].
+Definition ebS2 : shell Qc := mkShell Qc 0 (q 0 1) (q 1 3) (q (-1) 1) [q 2 3] [[q 5 7]] false [] [].
+Definition ebP3 : shell Qc := mkShell Qc 1 (q 1 4) (q (-2) 1) (q 1 3) [q 1 2] [[q 1 1]] false [] [].
+Definition ebS4 : shell Qc := mkShell Qc 0 (q (-1) 1) (q 1 2) (q 0 1) [q 5 4] [[q 1 1]] false [] [].
+
+Lemma ebKQ_hyps :
+  (forall x, fapx KQ x = x) /\ (forall n, ofnat KQ (S n) <> f0 KQ) /\ (forall c, dfnorm KQ c <> f0 KQ).
+Proof.
+  split; [reflexivity|]. split; [apply QcK_char0|].
+  intros c H. apply (f_equal this) in H. vm_compute in H. discriminate H.
+Qed.
+Lemma ebKQ_exps :
+  (forall a b, In a (s_exps ebP1) -> In b (s_exps ebS2) -> fadd KQ a b <> f0 KQ)
+  /\ (forall g d, In g (s_exps ebP3) -> In d (s_exps ebS4) -> fadd KQ g d <> f0 KQ)
+  /\ (forall a b g d, In a (s_exps ebP1) -> In b (s_exps ebS2) -> In g (s_exps ebP3) -> In d (s_exps ebS4) ->
+        fadd KQ (fadd KQ a b) (fadd KQ g d) <> f0 KQ).
+Proof.
+  split; [|split].
+  - intros a b Ha Hb. cbn [ebP1 ebS2 s_exps In] in Ha, Hb.
+    destruct Ha as [<-|[<-|[]]]; destruct Hb as [<-|[]]; intro H; apply (f_equal this) in H;
+      vm_compute in H; discriminate H.
+  - intros g d Hg Hd. cbn [ebP3 ebS4 s_exps In] in Hg, Hd.
+    destruct Hg as [<-|[]]; destruct Hd as [<-|[]]; intro H; apply (f_equal this) in H;
+      vm_compute in H; discriminate H.
+  - intros a b g d Ha Hb Hg Hd. cbn [ebP1 ebS2 ebP3 ebS4 s_exps In] in Ha, Hb, Hg, Hd.
+    destruct Ha as [<-|[<-|[]]]; destruct Hb as [<-|[]]; destruct Hg as [<-|[]]; destruct Hd as [<-|[]];
+      intro H; apply (f_equal this) in H; vm_compute in H; discriminate H.
+Qed.
+
+(* the block law evaluated on the model (vm_compute, independent of the proof): every segment and component of the
+   (p s | p s) block, both rotations; the blocks are evaluated once per rotation *)
+Definition eb_get (G : list (list (list (list (list (list (list (list Qc)))))))) (m1 i1 i3 : nat) : Qc :=
+  nth 0 (nth 0 (nth i3 (nth 0 (nth 0 (nth 0 (nth i1 (nth m1 G []) []) []) []) []) []) []) (f0 KQ).
+Definition eb_check (R : @mat3 Qc) : bool :=
+  let G := eri_block KQ ebP1 ebS2 ebP3 ebS4 in
+  let G' := eri_block KQ (rot_shell KQ R ebP1) (rot_shell KQ R ebS2) (rot_shell KQ R ebP3) (rot_shell KQ R ebS4) in
+  let cmp i := nth i (default_comps 1) (0, 0, 0)%nat in
+  forallb (fun m1 => forallb (fun j1 => forallb (fun j3 =>
+    Qeq_bool
+      (fmul KQ (fmul KQ (dfnorm KQ (cmp j1)) (dfnorm KQ (cmp j3))) (eb_get G m1 j1 j3))
+      (FNum.fsum KQ (map (fun i1 => FNum.fsum KQ (map (fun i3 =>
+         fmul KQ (fmul KQ (rep_mat KQ R (cmp i1) (cmp j1)) (rep_mat KQ R (cmp i3) (cmp j3)))
+                 (fmul KQ (fmul KQ (dfnorm KQ (cmp i1)) (dfnorm KQ (cmp i3))) (eb_get G' m1 i1 i3)))
+         (seq 0 3))) (seq 0 3)))) (seq 0 3)) (seq 0 3)) (seq 0 2).
+Example eri_block_law_computed : forallb eb_check [R345; Rimp] = true.
+Proof. vm_compute. reflexivity. Qed.
+End Examples.
+
+Lemma eri_block_law_hypotheses_satisfiable :
+  exists (F : Type) (K : Fops F) (R1 R2 : @mat3 F) (s1 s2 s3 s4 : shell F),
+    is_field K /\ (forall x, fapx K x = x) /\ (forall n, ofnat K (S n) <> f0 K) /\ (forall c, dfnorm K c <> f0 K)
+    /\ orthogonal K R1 /\ orthogonal K R2
+    /\ s_comps s1 = [] /\ s_comps s2 = [] /\ s_comps s3 = [] /\ s_comps s4 = []
+    /\ (forall a b, In a (s_exps s1) -> In b (s_exps s2) -> fadd K a b <> f0 K)
+    /\ (forall g d, In g (s_exps s3) -> In d (s_exps s4) -> fadd K g d <> f0 K)
+    /\ (forall a b g d, In a (s_exps s1) -> In b (s_exps s2) -> In g (s_exps s3) -> In d (s_exps s4) ->
+          fadd K (fadd K a b) (fadd K g d) <> f0 K).
+Proof.
+  exists Qc, ebKQ, R345, Rimp, ebP1, ebS2, ebP3, ebS4.
+  split; [apply QcK_field|]. destruct ebKQ_hyps as (A & B & C). split; [exact A|]. split; [exact B|].
+  split; [exact C|]. split; [exact orthogonal_R345|]. split; [exact orthogonal_Rimp|].
+  split; [reflexivity|]. split; [reflexivity|]. split; [reflexivity|]. split; [reflexivity|].
+  exact ebKQ_exps.
+Qed.
